@@ -13,7 +13,18 @@
 static const char *tnames[] = { "sse", "avx", "mmx", "c", "c64x-c", "neon", "altivec", "mips" };
 #define NT 8
 static OrcTarget *targets[NT];
-static int stride, offset_, poison;
+static int stride, offset_, poison, probe_min;
+
+/* the smallest flag set of a target that still selects its base rule set (x86), or its default flags */
+static unsigned min_flags (int t)
+{
+  unsigned def = orc_target_get_default_flags (targets[t]);
+  if (t == 0) return (def & ~0x3fu) | ORC_TARGET_SSE_SSE2;
+  if (t == 1) return (def & ~0x3u) | ORC_TARGET_AVX_AVX | ORC_TARGET_AVX_AVX2;
+  if (t == 2) return (def & ~0x3fu) | ORC_TARGET_MMX_MMX | ORC_TARGET_MMX_MMXEXT;
+  return def;
+}
+#define PROBE_COMPILE(p, t) (probe_min ? orc_program_compile_full (p, targets[t], min_flags (t)) : orc_program_compile_for_target (p, targets[t]))
 static long g_idx;
 static FILE *out;
 static long n_inproc_viol;
@@ -57,7 +68,7 @@ static void probe (OrcProgram * p, long idx)
     if (poison) poison_heap ();
     /* a failed compile leaves its error on the program object until reset: start every compile from a reset program */
     orc_program_reset (p);
-    V_CONFINED (r = orc_program_compile_for_target (p, targets[t]), sig);
+    V_CONFINED (r = PROBE_COMPILE (p, t), sig);
     if (sig) { fprintf (out, "D %ld %d crash%d 0\n", idx, t, sig); continue; }
     digest (p, r, &hc, &ha);
     fprintf (out, "D %ld %d %016llx %016llx\n", idx, t, (unsigned long long) hc, (unsigned long long) ha);
@@ -65,7 +76,7 @@ static void probe (OrcProgram * p, long idx)
     if ((idx % 5) == 0) {
       orc_program_reset (p);
       if (poison) poison_heap ();
-      V_CONFINED (r = orc_program_compile_for_target (p, targets[t]), sig);
+      V_CONFINED (r = PROBE_COMPILE (p, t), sig);
       if (!sig) {
         digest (p, r, &hc2, &ha2);
         if (hc2 != hc) inproc_fail (p, tnames[t], "recompile-after-reset-differs-code");
@@ -113,7 +124,8 @@ static void on_prog (VProg * vp, void *user)
  * a compile program A for avx and keep its code     b compile program B for sse and keep its code
  * f free the oldest kept code                        r compile+run+free program A (sse)
  * x failed compile (no rule: float on mmx)           z fatal compile (size mismatch)
- * n compile A for neon, free                         h application heap traffic */
+ * n compile A for neon, free                         h application heap traffic
+ * g every opcode compiled for sse/avx/mmx under the smallest flag set   d the same under the default flags */
 static OrcProgram *hprog (int k)
 {
   OrcProgram *p;
@@ -160,6 +172,33 @@ static void apply_history (const char *h)
       case 'z': p = hprog (3); orc_program_compile (p); orc_program_free (p); break;
       case 'n': p = hprog (1); orc_program_compile_for_target (p, orc_target_get_by_name ("neon")); orc_program_free (p); break;
       case 'h': poison_heap (); break;
+      case 'g': case 'd': {
+        /* every opcode of the sys set compiled once for the three x86 back ends: g under the smallest flag set of the
+         * target, d under its default flags; freed at once */
+        int oi, t;
+        /* target by target, the target the probes compile for first last: whatever a compile leaves behind per
+         * (target, opcode) is then still there when the probe asks for the same pair under other flags */
+        for (t = 2; t >= 0; t--) for (oi = 0; oi < v_nops; oi++) {
+          const OrcStaticOpcode *o = &v_ops[oi];
+          int a[5], na = 0, k, nsrc = op_nsrc (o);
+          if (!targets[t]) continue;
+          p = orc_program_new ();
+          orc_program_set_name (p, "hist_all");
+          if (o->flags & ORC_STATIC_OPCODE_ACCUMULATOR) a[na++] = orc_program_add_accumulator (p, o->dest_size[0], "a1");
+          else a[na++] = orc_program_add_destination (p, o->dest_size[0], "d1");
+          if (o->dest_size[1]) a[na++] = orc_program_add_destination (p, o->dest_size[1], "d2");
+          for (k = 0; k < nsrc; k++) {
+            char nm[8];
+            sprintf (nm, "x%d", k);
+            a[na++] = (k > 0 && (o->flags & ORC_STATIC_OPCODE_SCALAR)) ? orc_program_add_constant (p, o->src_size[k], 1, nm) : orc_program_add_source (p, o->src_size[k], nm);
+          }
+          orc_program_append_2 (p, o->name, 0, a[0], a[1], na > 2 ? a[2] : -1, na > 3 ? a[3] : -1);
+          if (*h == 'g') orc_program_compile_full (p, targets[t], min_flags (t));
+          else orc_program_compile_for_target (p, targets[t]);
+          orc_program_free (p);
+        }
+        break;
+      }
     }
   }
 }
@@ -173,6 +212,7 @@ int main (int argc, char **argv)
   stride = v_argi (argc, argv, "--stride", 1);
   offset_ = v_argi (argc, argv, "--offset", 0);
   poison = v_flag (argc, argv, "--poison");
+  probe_min = v_flag (argc, argv, "--probe-min");
   out = outfn ? fopen (outfn, "w") : stdout;
   if (!out) return 2;
   orc_init ();
